@@ -213,8 +213,12 @@ Query_R(s, e) ==
     [] e.q = "Params" -> s.params
     [] e.q = "StakingParams" -> [maxVals |-> s.params.maxVals, histEntries |-> s.params.histEntries]
 
+(* who holds the executor role: the accounts the stored strings decode to ("up:<name>" is <name> written in upper case) *)
+ExecAcct(a) == CASE a = "up:e1" -> "e1" [] a = "up:e2" -> "e2" [] a = "up:e3" -> "e3" [] OTHER -> a
+ExecProbe_G(s, e) == [ executor |-> \E i \in 1..Len(s.params.execs) : ExecAcct(s.params.execs[i]) = ExecAcct(e.signer) ]
 Guards(s, e) ==
   CASE e.type = "AddValidator"    -> AddValidator_G(s, e)
+    [] e.type = "ExecProbe"       -> ExecProbe_G(s, e)
     [] e.type = "RemoveValidator" -> RemoveValidator_G(s, e)
     [] e.type = "UpdateParams"    -> UpdateParams_G(s, e)
     [] e.type = "RegisterPlan"    -> RegisterPlan_G(s, e)
@@ -225,6 +229,7 @@ Guards(s, e) ==
     [] e.type = "Query"           -> Query_G(s, e)
 Effect(s, e) ==
   CASE e.type = "AddValidator"    -> AddValidator_E(s, e)
+    [] e.type = "ExecProbe"       -> s
     [] e.type = "RemoveValidator" -> RemoveValidator_E(s, e)
     [] e.type = "UpdateParams"    -> UpdateParams_E(s, e)
     [] e.type = "RegisterPlan"    -> RegisterPlan_E(s, e)
